@@ -18,6 +18,7 @@ func init() {
 			{Name: "H_C04_cat", Tier: "quick", What: "string / bool fields over the menu {\"\", a, b, a:b} or absent, 3 documents: eq ne in not_in exists not_exists and Not(.), operands absent from the data, a field absent from the index", Covers: []string{"ran"}},
 			{Name: "H_C04_groups", Tier: "quick", What: "filter trees over 6 filters (string, bool, symbolic integer operand): AND lists, two groups (<=2 x 2) OR-ed, the query builder", Covers: []string{"ran"}},
 			{Name: "H_C04_orgroup", Tier: "quick", What: "a filter group with OR inside (2..3 terms from a menu incl. one that matches nothing, in any order), optionally OR-ed with a second AND group; symbolic int64 values and operand: exact id set, index state unchanged", Covers: []string{"ran"}},
+			{Name: "H_C04_ctors", Tier: "quick", What: "all 18 exported filter constructors and aliases (Eq..Lte, Range, Between, In, AnyOf, NotIn, NoneOf, Exists, IsNotNull, NotExists, IsNull) judged by what their name promises, symbolic int64 values and operands; the query builder Where/And/Or/Build incl. And on an empty builder and empty Where/Or", Covers: []string{"ran"}},
 			{Name: "H_C04_history", Tier: "quick", What: "histories: <=2 of Remove(known/unknown) / re-Add, then 6 filter shapes incl. the empty list: removed documents never returned", Covers: []string{"ran"}},
 		},
 		ModelDiff:   true,
